@@ -74,18 +74,38 @@ pub fn generate(run_seed: u64, quick: bool) -> Scenario {
     let class = wl.weighted(&[58, 20, 10, 6, 6]);
     let class_name = ["grammar", "corrupt", "css", "deep", "extreme"][class];
 
+    // --- width (drawn first: it bounds the document size, see below)
+    let extreme = class == 4;
+    let mut width = gen_width(&mut wl, true);
+    if extreme && wl.chance(2, 3) {
+        width = wl.pick(&[100_000usize, usize::MAX, usize::MAX - 1, 1 << 32, 65_536]);
+    }
+    if class == 3 {
+        width = wl.pick(&[0usize, 0, 1, 1, 2, 3, 5, 10, 40, 80, 80, 200]);
+    }
+
     // --- document
     let mut corrupt_events = 0;
     let doc: DocSpec = if class == 3 {
         nest_doc(&mut wl, quick).0
     } else {
         let size = wl.weighted(&[25, 42, 26, if quick { 3 } else { 7 }]);
-        let target = match size {
+        let mut target = match size {
             0 => wl.urange(0, 64),
             1 => wl.urange(65, 1200),
             2 => wl.urange(3000, 16000),
             _ => wl.urange(16000, 200_000),
         };
+        // A table column is as wide as its content even when the text in it
+        // is wrapped narrowly, and every line of a cell is padded to the
+        // column: the *result* can be (lines x column width), i.e. quadratic
+        // in the document when the width does not bound it (3.5 GB for an
+        // 80 KB document at width 2^32 with max_wrap_width(1)).  That is the
+        // size of the requested output, not a defect; unbounded widths get
+        // documents small enough for it to stay in the tens of megabytes.
+        if width > 1000 {
+            target = target.min(6000);
+        }
         let mut p = DocParams::swarm(&mut wl, target);
         if class == 2 {
             p.attrs = true;
@@ -124,15 +144,6 @@ pub fn generate(run_seed: u64, quick: bool) -> Scenario {
         };
     }
 
-    // --- width
-    let extreme = class == 4;
-    let mut width = gen_width(&mut wl, true);
-    if extreme && wl.chance(2, 3) {
-        width = wl.pick(&[100_000usize, usize::MAX, usize::MAX - 1, 1 << 32, 65_536]);
-    }
-    if class == 3 {
-        width = wl.pick(&[0usize, 0, 1, 1, 2, 3, 5, 10, 40, 80, 80, 200]);
-    }
     let bounded_width = width <= 200;
 
     // --- configuration
@@ -333,6 +344,24 @@ pub fn generate(run_seed: u64, quick: bool) -> Scenario {
         }
     }
 
+    // Selector matching is legitimately quadratic in nesting depth when a
+    // descendant selector has to walk to the root for every element (N x d/2
+    // steps; 2*10^8 at d = 20000).  Deep nests combined with CSS keep d <= 3000 so
+    // that such work stays far below the fuel; the linear deep-selector case
+    // lives in the corpus (selector-descendant-deep-recursion).
+    let has_css = !config.css.is_empty()
+        || (config.use_doc_css && {
+            let m = doc.materialise();
+            m.windows(6).any(|w| w.eq_ignore_ascii_case(b"<style")) || m.windows(6).any(|w| w == b"style=")
+        });
+    if has_css {
+        if let DocSpec::Nest { depth, closes, .. } = &mut doc {
+            if *depth > 3000 {
+                *depth = 3000;
+                *closes = (*closes).min(3000);
+            }
+        }
+    }
     let stack_kib = er.pick(&[2048u32, 8192]);
     Scenario {
         property: "C01".into(),
